@@ -43,8 +43,15 @@ def run(ctx):
     t = ctx.tier
     ctx.samples.append({'constants': open(f'{vtlib.SPEC}/MC_SleepHeap_{t}.cfg').read()})
     if not os.environ.get('VERIF_SKIP_MC'):
-        if not synccheck.mc_all(ctx, [('SleepHeap', f'MC_SleepHeap_{t}.cfg', 1500)]):
+        if not synccheck.mc_all(ctx, [('SleepHeap', f'MC_SleepHeap_{t}.cfg', 1500),
+                                      # a client of the wake-up reason mechanism: photon::Timer (spec growth beyond the listed properties)
+                                      ('Timer', 'MC_Timer.cfg', 600), ('Timer', 'MC_Timer_oneshot.cfg', 600)]):
             return ctx.finish()
+        # witness: with a scheduler that drops interrupts to READY threads (the obvious repair of F2) Timer::cancel() breaks
+        r = ctx.mc('Timer', 'MC_Timer_nostale.cfg', timeout=600, count=False)
+        ctx.extra['timer_relies_on_stored_reason'] = bool(r['inv_violated'])
+        if not r['inv_violated']:
+            raise vtlib.InfraError('Timer.tla: the no-stale-reason variant is not detected (vacuous model)')
         r = ctx.mc('SleepHeap', 'MC_SleepHeap_broken.cfg', timeout=900, count=False)
         ctx.extra['broken_heap_detected'] = bool(r['inv_violated'])
         if not r['inv_violated']:
@@ -76,11 +83,33 @@ def run(ctx):
     ctx.extra['heap_dumps_checked'] = n
     ctx.extra['max_heap_size_seen'] = max((r.get('n', 0) for r in rows if r['e'] == 'hHeap'), default=0)
     ctx.samples.append({'heap_dump': next(r for r in rows if r['e'] == 'hHeap' and r['n'] >= 3)})
+    timer_stage(ctx)
     return ctx.finish()
+
+
+def timer_stage(ctx):
+    """photon::Timer, the in-tree client of the wake-up reason mechanism (Timer.tla / Trace_TimerA.tla; spec growth beyond C04's
+    statement, judged here because a change to sleep / interrupt semantics shows first in Timer::cancel / ~Timer)."""
+    h = ctx.build_harness('h_timer')
+    trace = f'{ctx.out}/timer.ndjson'
+    ctx.run_harness(h, ['--execs', 150 if ctx.tier == 'quick' else 2500, '--seed', ctx.seed + 3, '--out', trace], timeout=1500, ok_rcs=(0, 3, 4))
+    rows = vtlib.read_ndjson(trace)
+    acc, rejs, n = tracecheck.validate(ctx, 'Trace_TimerA', 'Trace_TimerA.cfg', rows, tagbase='timerA', timeout=900)
+    tracecheck.report(ctx, rejs, 'timer', name='Trace_TimerA_timer')
+    fires = sum(1 for r in rows if r.get('e') == 'Fire')
+    refused = sum(1 for r in rows if r.get('e') == 'OpRet' and r.get('r') == -1)
+    ctx.extra['timer'] = {'executions': n, 'accepted': acc, 'fires': fires, 'reset_or_cancel_refused': refused,
+                          'destroyed_inside_callback': sum(1 for a, b in zip(rows, rows[1:]) if a.get('e') == 'DtorInv' and b.get('e') == 'FireEnd')}
+    if not fires or not refused:
+        raise vtlib.InfraError('h_timer: no callback / no refused reset recorded (vacuous timer stage)')
 
 
 def replay(ctx, path):
     rows = vtlib.read_ndjson(path)
+    if any(r.get('e') in ('Fire', 'DtorInv', 'New') for r in rows):
+        acc, rejs, n = tracecheck.validate(ctx, 'Trace_TimerA', 'Trace_TimerA.cfg', rows, tagbase='replay_timer')
+        tracecheck.report(ctx, rejs, 'timer', name='Trace_TimerA_timer')
+        return 1 if ctx.violations else 0
     if rows and rows[0].get('e') == 'hHeap':
         datacheck.judge(ctx, 'Trace_SleepHeapB', 'Trace_SleepHeapB.cfg', path, what='heap dump')
         return 1 if ctx.violations else 0
